@@ -208,6 +208,11 @@ def make(cfg, select, known=()):
             return
         status = int(status) if not isinstance(status, SymInt) else E.concretize(status.e)
         E.acc.count(f"status:{status}")
+        if "C15" in select and FLAGS.hazards and E.check():
+            m = E.model()
+            hz = FLAGS.hazards[0]
+            E.acc.count("mode-hazard-paths")
+            E.acc.violation(dict(prop="C15", kind="mode-hazard", alg=alg, n=n, site="hazard:" + str(hz.get("where"))[:80], cls=None, benign_if_not_reproduced=True, modes=["jit"], hazard=hz, hazards=len(FLAGS.hazards), **witness(E, m, lo, hi, pz)))
         out = dom.tolist()
         outz = [(as_z3int(o[0]), as_z3int(o[1])) for o in out]
         inbox = AND([z3.And(lo[i] <= t[i], t[i] <= hi[i]) for i in range(n)])
